@@ -142,8 +142,21 @@ func init() {
 		Run: func(c *rt.Ctx) {
 			c.Cov["rule"] = "E3, one search per input_fee_ppk (quick {0,100,2500}, thorough {0,1,100,999,1000,2500}) plus one with MPP: every history up to the depth bound over {mint quote, settle, mint x {exact, less, +1, 2^63+2^63 wrap-around, amount 3}, swap x {inputs-fee, +1, inputs, wrap-around} on single / paired / mixed-keyset inputs and on the same proof twice (witness / DLEQ field changed), melt quote (external, external with a non-round msat amount, forged invoice carrying the payment hash of an own unpaid mint quote, internal, MPP partial incl. parts of 0 and 1500 msat), melt with inputs exactly amount+reserve+fee and one less x {Succeeded, Failed->Failed, Pending}, poll x {Succeeded, Failed}, rotate to a second fee}; Lightning model charges the whole fee limit; invariant in every state, in msat: outstanding ecash (model and the mint's own signature store, whichever is larger) + Lightning outflow incl. fee limits (+ in-flight beyond locked inputs) <= Lightning inflow + internal settlements, and every fee limit handed to the backend <= the quote's fee_reserve"
 			runSpecs(c, c02Specs(c.Quick()))
+			// inflation through a race (beyond the statement's sequential quantifier, cheap): the E1 scenarios of C01 / C03 under
+			// their value oracles — a quote issued beyond its payments, or ecash outstanding beyond the Lightning inflow
+			c.Cov["rule_schedules"] = "E1 (scenario bodies of C01 / C03): concurrent mint requests, polls and the invoice notification on one quote; swap / melt / pending-melt resolution on one proof; every interleaving at MintDB / Lightning call granularity with at most B preemptions; oracle: signatures issued <= quote amount x payments, outstanding + Lightning outflow <= inflow"
+			b := 2
+			if !c.Quick() {
+				b = 3
+			}
+			runSched(c, "C02", []string{"M1-mint-mint", "M3-mint-poll-watcher", "M5-mint-poll-settlement", "S2-swap-melt", "S6-pendingmelt-poll-swap"}, b)
 		},
-		Worker: bfs.Worker(c02All),
-		Replay: func(p string) int { return bfs.ReplayFile("C02", c02All, p) },
+		Worker: dispatchWorker(bfs.Worker(c02All)),
+		Replay: func(p string) int {
+			if code, ok := replaySched("C02", p); ok {
+				return code
+			}
+			return bfs.ReplayFile("C02", c02All, p)
+		},
 	})
 }
